@@ -1,6 +1,8 @@
 package chainkit
 
 import (
+	"github.com/nspcc-dev/neo-go/pkg/vm/stackitem"
+	"bytes"
 	"github.com/nspcc-dev/neo-go/pkg/smartcontract/manifest"
 	"errors"
 	"fmt"
@@ -288,6 +290,10 @@ func (b *Builder) MakeScript(a Action) ([]byte, []int, error) {
 		call(nativehashes.Notary, "withdraw", from, b.PartyHash(a.A))
 	case "deploy": // A = variant selector (0..2), S = name suffix, B = permission profile (PermProfile)
 		c := KContract(fmt.Sprintf("K%d%s", a.A, a.S), a.A, PermProfile(a.B)...)
+		if emitBigNEFArgs(w.BinWriter, c) {
+			emit.AppCallNoArgs(w.BinWriter, nativehashes.ContractManagement, "deploy", callflag.All)
+			break
+		}
 		call(nativehashes.ContractManagement, "deploy", c.NEF, c.Manifest)
 	case "invoke": // A = contract index, S = method, K/V/N arguments by method
 		if len(b.Deployed) == 0 {
@@ -329,6 +335,10 @@ func (b *Builder) MakeScript(a Action) ([]byte, []int, error) {
 			call(d.Hash, "put", append([]byte("kept"), a.K...), []byte(a.V))
 		case "update": // update to another variant
 			c := KContract(d.C.Name, int(a.N%3), PermProfile(a.B)...) // B = permission profile of the new manifest
+			if emitBigNEFArgs(w.BinWriter, c) {
+				emit.AppCallNoArgs(w.BinWriter, d.Hash, "update", callflag.All)
+				break
+			}
 			call(d.Hash, "update", c.NEF, c.Manifest)
 		default:
 			return nil, nil, fmt.Errorf("unknown method %q", a.S)
@@ -789,4 +799,24 @@ func PermProfile(p int) []asm.ManifestOpt {
 			m.Permissions = []manifest.Permission{}
 		}
 	}}
+}
+
+// emitBigNEFArgs emits the argument array [nef, manifest] of a padded ("big") contract: its NEF does not fit into a
+// transaction script (65535 bytes), so the script puts it together from the part before the padding, three copies of
+// a 22000-byte chunk and the rest. It reports false (emitting nothing) for ordinary contracts.
+func emitBigNEFArgs(w *io.BinWriter, c *asm.Contract) bool {
+	pad := bytes.Repeat([]byte{byte(opcode.NOP)}, 66000)
+	i := bytes.Index(c.NEF, pad)
+	if i < 0 {
+		return false
+	}
+	emit.Bytes(w, c.Manifest)
+	emit.Bytes(w, c.NEF[:i])
+	emit.Bytes(w, pad[:22000])
+	emit.Opcodes(w, opcode.DUP, opcode.DUP, opcode.CAT, opcode.CAT, opcode.CAT)
+	emit.Bytes(w, c.NEF[i+len(pad):])
+	emit.Opcodes(w, opcode.CAT, opcode.CONVERT)
+	w.WriteB(byte(stackitem.ByteArrayT))
+	emit.Opcodes(w, opcode.PUSH2, opcode.PACK)
+	return true
 }
